@@ -214,3 +214,8 @@ also("C20", "R-C20-11: every failing return of the command handlers carries the 
 also("C10", "A3.1 recognises the minimum / maximum scan over a map as order-insensitive.")
 tech("C12", "name-as-given check of file and directory parameters across helper frames")
 tech("C11", "effects analysis of the callees of the link loader")
+also("C15", "The reviewed 'step has no links' panic is also accepted inside an unexported lookup helper (every return is m[k] of its parameters) that only the two reviewed functions call with (links, step.Name); length facts follow the result of an unexported helper whose every return excludes the short lengths; the ed25519 length checks may sit in a helper that is handed the KeyVal.")
+also("C05", "The per-step link map may be obtained through such a lookup helper; R-C05-5 is checked at every frame level of a reduce-then-verify helper.")
+also("C04", "Signer and signed bytes may be handed back unchanged by a transparent helper that was given the key parameter and the receiver.")
+also("C01", "Verifier and verified bytes may be handed back unchanged by a transparent helper that was given the key parameter and the receiver.")
+also("C20", "The three operations of sign may sit in unexported helpers whose error is what sign returns (parameters mapped to arguments); key and key-layout may load through an unexported (Key, error) loader helper.")
